@@ -2,7 +2,7 @@
    Pinned statements only; proofs in proofs/CrcLemmas.v. (The use of this value in the end-fragment trailer and
    in decap_end is part of C02/C03: pkt_end carries be32 of the context CRC, decap_end recomputes `crc` on the
    reassembled bytes.) *)
-Require Import GSE.gen.CrcTable GSE.model.Base GSE.model.Crc GSE.proofs.CrcLemmas GSE.proofs.HeaderLemmas.
+Require Import GSE.gen.CrcTable GSE.model.Base GSE.model.Crc GSE.proofs.CrcLemmas GSE.proofs.HeaderLemmas GSE.proofs.CrcBurst.
 Open Scope N_scope.
 
 (* the generated 256-entry table is the table of the polynomial 0x04C11DB7 (8 shift steps of i << 24) *)
@@ -25,6 +25,11 @@ Theorem c12_spec_unfold : forall data b acc,
                        else N.land (N.shiftl s 1) 0xFFFFFFFF).
 Proof. intros. repeat split. Qed.
 
+(* ... and the byte-at-a-time form is the bit-serial LFSR: every message bit, most significant first, is xored into
+   the top of the register, which then shifts once (feed_bit); crc_bits folds feed_bit over the bits of the bytes *)
+Theorem c12_bit_serial : forall data init, bytes_ok data -> init < 4294967296 -> crc_bits data init = crc_spec data init.
+Proof. exact crc_bits_spec. Qed.
+
 Example c12_check_value : default_crc_res [0x35;0x36;0x37;0x38;0x39] 0x3334 0x3132 [] = Ret 0x0376E6E7
   /\ crc_spec [0x31;0x32;0x33;0x34;0x35;0x36;0x37;0x38;0x39] 0xFFFFFFFF = 0x0376E6E7.
 Proof. split; vm_compute; reflexivity. Qed.
@@ -32,3 +37,4 @@ Proof. split; vm_compute; reflexivity. Qed.
 Print Assumptions c12_table.
 Print Assumptions c12_default_crc.
 Print Assumptions c12_spec_unfold.
+Print Assumptions c12_bit_serial.
